@@ -34,6 +34,21 @@ THEOREMS (all proved, no _partial)
   C16_print_parse               forall e with valid identifiers: parse_dim (pr e) = Some e' and eval s e' = eval s e
                                 for EVERY binding s (tokenizer included: decimal digits, identifiers, ** and //)
 
+DEEPENING ROUND (theorems added, all closed):
+  C16_parser_structure_current   classes / methods / assigned self.* / raise counts AND the normalised-AST digest of
+                                 every tokenizer and parser method are the ones Model.v was written against (fail closed)
+  C16_eval_integer_pow           x ** y = Z.pow for y >= 0; exact reciprocal for negative exponents
+  C16_residual_symbols, C16_eval_depends_on_free_symbols   residual = exactly the unbound symbols; eval only needs them
+  C16_print_parse_exact          parse_dim (pr e) = Some (norm e); = Some e without negative literals
+  C16_print_min_parse            the MINIMAL-parenthesis printer prmin (floor(a/b) written a // b) over the whole operator
+                                 set is read back exactly: parse_dim (prmin e) = Some (norm e) (= Some e without negative
+                                 literals); corner cases a-(b-c), -(a**b), (-a)**b, a**-b, a//b//c vs a//(b//c) as Example
+  C16_partial_consistent was and is FULL (no hypothesis, Leibniz equality, every env / tree).
+  New correspondence streams: check_int_semantics (x op y for every sign combination of x = N - c1, y = M - c2 through
+  the real operators and through the text, compared in Coq with Z.div / Z.modulo / -((-x)/y) / Z.quot / Z.pow directly);
+  check_print_min (random model trees over the whole operator set: Coq checks Python mirror = Model.pm, the real parser
+  through the stub reads the text back to norm e, real SymPy's value = eval e).
+
 TIE (measured every run, numbers in evidence/C16.json)
   (i)  parser: the REAL tokenizer/parser is run with the module global `sympy` (and the values of
        _ALLOWED_FUNCTIONS) rebound to a stub that records constructor calls; the recorded tree / raise is
@@ -92,6 +107,12 @@ FINDINGS (known_findings.d/C16.json)
   fixed 417b84b  simplify() returned Piecewise (text not parseable; ZeroDivisionError from the unused branch)
   fixed 6138197  simplify() propagated exceptions of sympy.simplify (ValueError "nan is not comparable",
        PrecisionExhausted) on floor(Min(N, sign(3 - N))/batch) and similar; now best effort (unsimplified dim).
+  known floordiv-on-sympy-numbers: SymbolicDim.__floordiv__ applies Python's // to the SymPy objects; when both have
+       been reduced to NUMBERS that is SymPy's Number.__floordiv__, wrong in 1.14 for an exact quotient by a negative
+       rational (Integer(1) // Rational(-1, 2) == -3): (N/N) // ((2/4) % -1) evaluates to -3, exact -2; the parser's
+       floor(a / b) for the same text gives -2.  Proposed fix: proposed_fixes/C16-floordiv-uses-floor.diff (build
+       floor(a / b) like the parser; the model's reading of //).  Attributed only when every minimal failing subtree is
+       such a `number // number` and SymPy alone reproduces the value.
   known sympy-mod-recursion: SymPy 1.14 alone raises RecursionError constructing Mod(N - 2, M + 1) (positive integer
        symbols); (N - 2) % (M + 1) through SymbolicDim raises it too.  Attributed only when SymPy alone raises it.
   known sympy-autoeval-min/-max/-mod: SymPy 1.14 itself evaluates Min(3, floor(3/(batch*x1))) to 3,
@@ -1365,6 +1386,31 @@ def _sympy_build_raises(t) -> str | None:
     return None
 
 
+def _number_floordiv_site(case: dict) -> bool:
+    """Every minimal failing subtree is `a // b` whose operands SymPy has already reduced to NUMBERS, and Python's
+    `//` on those two SymPy numbers (what SymbolicDim.__floordiv__ applies) alone gives the same wrong value while
+    floor(a / b) on them is the exact one (SymPy's Number.__floordiv__ is wrong for an exact quotient by a negative
+    rational: Integer(1) // Rational(-1, 2) == -3)."""
+    import sympy
+    mins = minimal_failing(case, with_simplify=False)
+    if not mins:
+        return False
+    for c, o, _bd in mins:
+        t = c["tree"]
+        if t[0] != "floordiv":
+            return False
+        try:
+            A, B = sympy_build(to_model(t[1])), sympy_build(to_model(t[2]))
+            if not (A.is_Number and B.is_Number):
+                return False
+            wrong, right = A // B, sympy.floor(A / B)
+            if wrong == right or o.get("full") != ["int", int(wrong)] or qval(exact(t, c["bindings"])) != ["int", int(right)]:
+                return False
+        except Exception:  # noqa: BLE001
+            return False
+    return True
+
+
 def _known_keys(ck) -> set[str]:
     return {k["key"] for k in ck._known if k.get("status") == "known"}
 
@@ -1408,6 +1454,9 @@ def _known_key(ck, case: dict, obs: dict, bad: list[str]) -> str | None:
         rest = [b_ for b_ in rest if b_.split(":")[0] not in ("simplify", "shape_simplify")]
         if len(rest) < n0:
             keys.append("sympy-simplify-raises")
+    if rest and "floordiv-on-sympy-numbers" in known and sum(1 for _ in _subtrees(case["tree"])) <= 150 \
+            and _number_floordiv_site(case):
+        return "+".join(keys + ["floordiv-on-sympy-numbers"])
     if rest:
         if sum(1 for _ in _subtrees(case["tree"])) > 150:
             return None        # large flat trees: never attributed to SymPy (and never silently dropped)
@@ -1724,7 +1773,7 @@ def check_trees(ck, cases: list[dict], report) -> None:
             obs.pop("simplify_reparse", None)
             if "simplify-returns-piecewise" in key or "sympy-simplify-raises" in key:
                 obs.pop("simplify", None)
-            if "sympy-autoeval" in key:
+            if "sympy-autoeval" in key or "floordiv-on-sympy-numbers" in key:
                 in_coq = False     # SymPy's value contradicts exact arithmetic here: the finding, not the model
         elif bad:
             report(case, obs, bad)
